@@ -76,7 +76,7 @@ for p in props:
 
 manifest = {
  "version": 1,
- "setup_cmd": "cd /verif/checker && env -u GOWORK GOFLAGS=-mod=vendor GOPROXY=off GOSUMDB=off GOTOOLCHAIN=local go build -o /verif/bin/gormverif .",
+ "setup_cmd": "cd /verif/checker && env -u GOWORK GOFLAGS=-mod=vendor GOPROXY=off GOSUMDB=off GOTOOLCHAIN=local go build -o /verif/bin/gormverif . && /verif/bin/gormverif selftest",
  "hooks": {
    "guard": "verif",
    "enable": "none: static analysis needs no instrumentation; no hook commits exist and the build tag is unused",
